@@ -1324,12 +1324,20 @@ func convertDateFormat(format string) string {
 		"s": "05", // Seconds with leading zeros
 	}
 
-	result := format
-	for phpFormat, goFormat := range replacements {
-		result = strings.ReplaceAll(result, phpFormat, goFormat)
+	// Translate in a single left-to-right pass: every format letter is replaced exactly
+	// once and replacement text is never re-scanned, so the result does not depend on
+	// the iteration order of the table above.
+	var result strings.Builder
+	result.Grow(len(format) * 2)
+	for i := 0; i < len(format); i++ {
+		if goFormat, ok := replacements[format[i:i+1]]; ok {
+			result.WriteString(goFormat)
+		} else {
+			result.WriteByte(format[i])
+		}
 	}
 
-	return result
+	return result.String()
 }
 
 // Additional filter implementations
